@@ -378,6 +378,7 @@ def run(scn, prop=None):
                             raise
                         failed = e
                         w.probe('sendall_gave_up_midway')
+                        w.fault('sendall_timeout_midway')
                     delta = wire_bytes()[l0:]
                     if failed is not None or shorts:
                         # fault configurations: the peer holds a prefix of what this call was asked to send, never anything else
